@@ -198,9 +198,10 @@ class Task(Value, Generic[P, R]):
         self._signature: Optional[inspect.Signature] = None
         # Extra data to hash, but not serialize
         self._hash_includes = hash_includes
-        self.recompute_hash()
 
+        # Validate first: it normalizes the options (e.g. `cache` -> `cache_scope`) that are hashed.
         self._validate()
+        self.recompute_hash()
 
     def is_async(self) -> bool:
         """
